@@ -183,6 +183,73 @@ enum Ev {
     Arrive(u8),
     Complete(u8),
     Poll,
+    /// clear screen (CSI 2 J): the images on the screen are gone, the decodes that are still queued are stopped (their pictures are thrown
+    /// away when they are collected) - images that arrive afterwards are not affected
+    Clear,
+}
+
+/// schedules with clear screen events: k <= 2 images, at most one poll per gap, at most two clears anywhere
+fn gen_clear_schedules(k: u8) -> Vec<Vec<Ev>> {
+    fn rec(k: u8, arrived: u8, done: u32, last_poll: bool, clears: u8, cur: &mut Vec<Ev>, out: &mut Vec<Vec<Ev>>) {
+        if arrived == k && done == (1u32 << k) - 1 && clears > 0 {
+            out.push(cur.clone());
+        }
+        if !last_poll {
+            cur.push(Ev::Poll);
+            rec(k, arrived, done, true, clears, cur, out);
+            cur.pop();
+        }
+        if clears < 2 {
+            cur.push(Ev::Clear);
+            rec(k, arrived, done, false, clears + 1, cur, out);
+            cur.pop();
+        }
+        if arrived < k {
+            cur.push(Ev::Arrive(arrived));
+            rec(k, arrived + 1, done, false, clears, cur, out);
+            cur.pop();
+        }
+        for i in 0..arrived {
+            if done & (1 << i) == 0 {
+                cur.push(Ev::Complete(i));
+                rec(k, arrived, done | (1 << i), false, clears, cur, out);
+                cur.pop();
+            }
+        }
+    }
+    let mut out = Vec::new();
+    rec(k, 0, 0, false, 0, &mut Vec::new(), &mut out);
+    out
+}
+
+/// sequential reference model of the decode queue and the screen
+struct QueueModel {
+    /// (arrival number, stopped by a clear screen)
+    queue: std::collections::VecDeque<(usize, bool)>,
+    shown: Vec<usize>,
+}
+
+impl QueueModel {
+    fn collect(&mut self, completed: &[bool], assign: &[usize]) {
+        while let Some(&(j, stopped)) = self.queue.front() {
+            if !completed[j] {
+                break;
+            }
+            self.queue.pop_front();
+            if !stopped {
+                let img = assign[j];
+                self.shown.retain(|&old| !covers(img, old));
+                self.shown.push(img);
+            }
+        }
+    }
+    fn clear(&mut self, completed: &[bool], assign: &[usize]) {
+        self.shown.clear();
+        for e in self.queue.iter_mut() {
+            e.1 = true;
+        }
+        self.collect(completed, assign);
+    }
 }
 
 /// (cell x, cell y, px width, px height)
@@ -310,6 +377,7 @@ fn ev_json(s: &[Ev]) -> Value {
                 Ev::Arrive(i) => json!(format!("arrive({i})")),
                 Ev::Complete(i) => json!(format!("complete({i})")),
                 Ev::Poll => json!("poll"),
+                Ev::Clear => json!("clear"),
             })
             .collect(),
     )
@@ -393,6 +461,7 @@ fn run_schedule_once(assign: &[usize], sched: &[Ev], ctx: &mut Ctx, last: bool) 
     let mut bad: Option<(String, Value)> = None;
     let mut spurious = false;
 
+    let mut model = QueueModel { queue: Default::default(), shown: Vec::new() };
     let mut events: Vec<Ev> = sched.to_vec();
     events.push(Ev::Poll);
     events.push(Ev::Poll);
@@ -406,6 +475,7 @@ fn run_schedule_once(assign: &[usize], sched: &[Ev], ctx: &mut Ctx, last: bool) 
                     let _ = parser.print_char(&mut buf, 0, &mut caret, b as char);
                 }
                 arrived += 1;
+                model.queue.push_back((i as usize, false));
                 if buf.sixel_threads.len() != before + 1 {
                     bad = Some(("diff:sixel-sched:arrival-not-queued".into(), json!({"step": step, "queue_len": buf.sixel_threads.len()})));
                     break;
@@ -418,7 +488,7 @@ fn run_schedule_once(assign: &[usize], sched: &[Ev], ctx: &mut Ctx, last: bool) 
                 let t0 = Instant::now();
                 loop {
                     let popped = arrived - buf.sixel_threads.len();
-                    let idx = (i as usize).checked_sub(popped);
+                    let idx = model.queue.iter().position(|e| e.0 == i as usize);
                     match idx.and_then(|x| buf.sixel_threads.get(x)) {
                         Some(h) => {
                             if h.is_finished() {
@@ -468,7 +538,8 @@ fn run_schedule_once(assign: &[usize], sched: &[Ev], ctx: &mut Ctx, last: bool) 
                     break;
                 }
                 let m = (0..arrived).take_while(|&j| completed[j]).count();
-                let want = expected_after(assign, m);
+                model.collect(&completed, assign);
+                let want = model.shown.clone();
                 let got: Vec<Option<usize>> = buf.layers[0].sixels.iter().map(identify).collect();
                 let want_o: Vec<Option<usize>> = want.iter().map(|x| Some(*x)).collect();
                 for s in &buf.layers[0].sixels {
@@ -496,8 +567,25 @@ fn run_schedule_once(assign: &[usize], sched: &[Ev], ctx: &mut Ctx, last: bool) 
                     bad = Some((format!("diff:sixel-sched:{class}"), json!({"step": step, "got": got, "want": want, "all_arrived_complete_prefix": m, "final_poll": step + 2 >= n_events})));
                     break;
                 }
-                if buf.sixel_threads.len() != arrived - m {
-                    bad = Some(("diff:sixel-sched:queue-length".into(), json!({"step": step, "queue": buf.sixel_threads.len(), "want": arrived - m})));
+                if buf.sixel_threads.len() != model.queue.len() {
+                    bad = Some(("diff:sixel-sched:queue-length".into(), json!({"step": step, "queue": buf.sixel_threads.len(), "want": model.queue.len()})));
+                    break;
+                }
+            }
+            Ev::Clear => {
+                // clear screen; the cursor position of the next image is set by its own sequence
+                for b in b"\x1b[2J" {
+                    let _ = parser.print_char(&mut buf, 0, &mut caret, *b as char);
+                }
+                model.clear(&completed, assign);
+                let got: Vec<Option<usize>> = buf.layers[0].sixels.iter().map(identify).collect();
+                outcome.u64(0xC1EA);
+                if !got.is_empty() {
+                    bad = Some(("diff:sixel-sched:image-survives-clear-screen".into(), json!({"step": step, "got": got})));
+                    break;
+                }
+                if buf.sixel_threads.len() != model.queue.len() {
+                    bad = Some(("diff:sixel-sched:queue-length-after-clear".into(), json!({"step": step, "queue": buf.sixel_threads.len(), "want": model.queue.len()})));
                     break;
                 }
             }
@@ -615,7 +703,8 @@ fn build(tier: &str) -> C14 {
     let mut scheds = Vec::new();
     let mut space = Vec::new();
     let plan: Vec<(u8, u8, bool)> = if thorough {
-        vec![(1, 2, true), (2, 2, true), (3, 2, true), (4, 1, true), (4, 2, false)]
+        // (k = 4 with two polls per gap is 2 million schedules per image assignment: it does not fit into the memory of 16 workers as a list)
+        vec![(1, 2, true), (2, 2, true), (3, 2, true), (4, 1, true)]
     } else {
         vec![(1, 2, true), (2, 2, true), (3, 1, true), (4, 1, false)]
     };
@@ -635,6 +724,19 @@ fn build(tier: &str) -> C14 {
             }
         }
     }
+    // schedules with clear screen events
+    let mut clear_count = 0;
+    for k in 1..=2u8 {
+        let s = gen_clear_schedules(k);
+        clear_count += s.len();
+        let assigns: Vec<Vec<usize>> = if k == 1 { vec![vec![0]] } else { vec![vec![0, 1], vec![0, 2], vec![2, 0]] };
+        for a in &assigns {
+            for sc in &s {
+                scheds.push((a.clone(), sc.clone()));
+            }
+        }
+    }
+    space.push(json!({"k": "1..=2 with <= 2 clear screen events, <= 1 poll per gap", "schedules": clear_count}));
     let meta = json!({"payload_alphabet": PAYLOAD_TOKENS, "payload_depth": payloads.depth, "payloads": payloads.total(), "schedule_space": space,
                       "images(cell x, cell y, px w, px h)": IMAGES.to_vec().iter().map(|i| json!([i.0, i.1, i.2, i.3])).collect::<Vec<_>>()});
     let mut files: Vec<Vec<usize>> = Vec::new();
@@ -697,6 +799,8 @@ impl Engine for C14 {
                     let t = v.as_str().unwrap();
                     if t == "poll" {
                         Ev::Poll
+                    } else if t == "clear" {
+                        Ev::Clear
                     } else {
                         let n: u8 = t[t.find('(').unwrap() + 1..t.len() - 1].parse().unwrap();
                         if t.starts_with("arrive") {
